@@ -163,3 +163,57 @@ theorem includes_candidate (s : Text) (st : Nat) (out : Text) (st' : Nat)
     · simp at h
 
 end Cvise.P
+
+namespace Cvise.P
+open Cvise Cvise.M
+
+/-- what `dropMarkers` keeps, for any predicate `m` on lines in place of `lineSearches id`: a sublist; every line that is not
+    a marker stays, in order; exactly the markers whose running index is in `[lo, hi)` are gone -/
+theorem dropMarkers_spec (id lo hi : Nat) : ∀ (ls : List Text) (i : Nat),
+    (dropMarkers id lo hi ls i).Sublist ls ∧
+    (dropMarkers id lo hi ls i).filter (fun l => !lineSearches id l) = ls.filter (fun l => !lineSearches id l) ∧
+    (dropMarkers id lo hi ls i).length + (min (i + (ls.filter (lineSearches id)).length) hi - max i lo) = ls.length := by
+  intro ls
+  induction ls with
+  | nil => intro i; simp [dropMarkers]; omega
+  | cons l rest ih =>
+    intro i
+    by_cases hm : lineSearches id l = true
+    · obtain ⟨h1, h2, h3⟩ := ih (i + 1)
+      simp only [dropMarkers, hm, if_true, List.filter_cons, Bool.not_true, Bool.false_eq_true, if_false, List.length_cons]
+      by_cases hin : i < lo ∨ i ≥ hi
+      · simp only [hin, if_true, List.singleton_append, List.length_cons]
+        refine ⟨h1.cons_cons l, ?_, ?_⟩
+        · simp only [List.filter_cons, hm, Bool.not_true, Bool.false_eq_true, if_false]; exact h2
+        · omega
+      · simp only [hin, if_false, List.nil_append]
+        refine ⟨h1.cons l, h2, ?_⟩
+        omega
+    · have hm' : lineSearches id l = false := by simpa using hm
+      obtain ⟨h1, h2, h3⟩ := ih i
+      simp only [dropMarkers, hm', Bool.false_eq_true, if_false, List.filter_cons, Bool.not_false, if_true, List.length_cons]
+      refine ⟨h1.cons_cons l, by rw [h2], ?_⟩
+      omega
+
+/-- LineMarkersPass: for a well-formed cursor over the markers of the file, a candidate is the file minus exactly
+    `end − index ≥ 1` whole lines, each of them a line the marker pattern matches; every other line stays, in order -/
+theorem line_markers_candidate (s : Text) (st : BS) (h : st.Inv) (hn : st.instances = markerCount Gen.lineMarkersRx s) :
+    let kept := dropMarkers Gen.lineMarkersRx st.index st.end_ (splitLines s) 0
+    let out := (lineMarkers.transform s st).2.1
+    out = kept.flatten ∧ out.Sublist s ∧ out ≠ s ∧
+    kept.filter (fun l => !lineSearches Gen.lineMarkersRx l) = (splitLines s).filter (fun l => !lineSearches Gen.lineMarkersRx l) ∧
+    kept.length + (st.end_ - st.index) = (splitLines s).length := by
+  obtain ⟨h1, h2, h3⟩ := dropMarkers_spec Gen.lineMarkersRx st.index st.end_ (splitLines s) 0
+  have hi := h.1; have hc := h.2
+  unfold markerCount at hn
+  have hend : st.end_ ≤ ((splitLines s).filter (lineSearches Gen.lineMarkersRx)).length := by
+    simp only [BS.end_]; omega
+  have hlt : st.index < st.end_ := by simp only [BS.end_]; omega
+  have hlen : (dropMarkers Gen.lineMarkersRx st.index st.end_ (splitLines s) 0).length + (st.end_ - st.index) = (splitLines s).length := by
+    have : min (0 + ((splitLines s).filter (lineSearches Gen.lineMarkersRx)).length) st.end_ - max 0 st.index = st.end_ - st.index := by
+      omega
+    omega
+  have := lines_removed s _ h1 (by omega)
+  exact ⟨rfl, this.1, this.2, h2, hlen⟩
+
+end Cvise.P
